@@ -29,8 +29,10 @@ SUPP = {
  "C09": "; supplementary float64 probe of pinned points of complex-typed inputs (0j, integer exponents, real_if_close on zero imaginary parts) with complex tangents",
  "C10": "; the float64 run of the reuse protocol (read-only arguments, fingerprints of captured index / option arrays) decides when the object-dtype run is clean",
  "C13": "; concrete closure checks of the numpy.linalg result named tuples and of dtypes / memory",
+ "C16": "; forward- versus reverse-mode agreement (adjointness queries) on real contractions given by axis lists / subscripts",
+ "C18": "; checker-history item (verdicts before / after unrelated failing checks) in a child interpreter on real draws",
  "C15": "; supplementary float64 probe of LAPACK-backed primitives with their option values (first order)",
- "C19": "; supplementary replay: every primitive's configurations differentiated in 8 (16) different orders in fresh interpreters (module-level state), NumPy global error state across raising differentiations, VJP / JVP / gradient functions applied repeatedly with the caller editing each returned value in place",
+ "C19": "; supplementary replay: every primitive's configurations differentiated in 8 (16) different orders in fresh interpreters (module-level state), NumPy global error state across raising differentiations, VJP / JVP / gradient functions applied repeatedly with the caller editing each returned value in place, fingerprints of every library-owned module-level container / class attribute / mutable default argument before and after a battery of differentiations",
  "C20": "; supplementary replay on real threads: exhaustive / sampled interleavings of array programs with scheduling points inside forward and backward passes, at trace entry/exit, and at every call inside autograd/numpy",
 }
 for _p, _t in SUPP.items():
